@@ -657,6 +657,10 @@ class BaseProxy(_BaseProxy_):
             kind, result = server._callmethod(
                 None, self._token.id, methodname, args, kwds
             )
+            if kind == '#ERROR':
+                # `result` is a `RemoteException` that has not gone through pickling (which is
+                # what turns it back into an exception); it still holds the original exception.
+                raise result.exc
         else:
             try:
                 conn = self._tls.connection
